@@ -81,8 +81,11 @@ impl Ntv2Grid {
                 // BaseGrid considers on the line to be in but by NTv2 standards points on
                 // either upper latitude or longitude are considered outside the grid.
                 // We explicitly check for this case here and keep trying if it happens.
+                // The tolerance is the same as in the containment test above: 1e-6 grid cells
                 let (lat_n, lon_e) = (current_grid.lat_n, current_grid.lon_e);
-                if (coord[0] - lon_e).abs() < 1e-6 || (coord[1] - lat_n).abs() < 1e-6 {
+                let tol_lat = 1e-6 * current_grid.dlat.abs();
+                let tol_lon = 1e-6 * current_grid.dlon.abs();
+                if (coord[0] - lon_e).abs() < tol_lon || (coord[1] - lat_n).abs() < tol_lat {
                     continue;
                 }
 
